@@ -119,8 +119,17 @@ def kw_class(k):
 def gen_identifier(rng):
     first = "abcdefghijklmnopqrstuvwxyzABCDEFGHIJKLMNOPQRSTUVWXYZ_$"
     rest = first + "0123456789"
+    # words that are keywords of later C revisions, of C++ or of compilers' extension sets, macros of the standard headers, or
+    # keywords in another letter case: in C99 / C11 they are ordinary identifiers
+    LOOKALIKES = ["alignas", "alignof", "static_assert", "thread_local", "bool", "true", "false", "nullptr", "typeof", "typeof_unqual", "constexpr",
+                  "noreturn", "complex", "imaginary", "atomic", "generic", "asm", "fortran", "class", "new", "this", "template", "namespace", "try",
+                  "Int", "INT", "If", "WHILE", "Return", "Sizeof", "_bool", "_Bool_", "_alignas", "_Atomics", "_Static_asserts", "restrict_", "inline2",
+                  "offsetof_", "_Pragma_", "pragma", "line", "define", "defined", "include", "NULL", "size_t", "__func__", "_", "__", "$", "_1", "e1", "x0", "u8x", "L_", "u_", "U8"]
     while True:
-        if rng.random() < 0.25:
+        r_ = rng.random()
+        if r_ < 0.12:
+            s = rng.choice(LOOKALIKES)
+        elif r_ < 0.32:
             # a keyword with something glued to it is an ordinary identifier (longest match): int$x, for_each, case9, do$, _Boolean
             s = rng.choice(C99_KEYWORDS + C11_KEYWORDS) + rng.choice(["$", "_", "9", "x"]) + "".join(rng.choice(rest) for _ in range(rng.randint(0, 3)))
         else:
